@@ -256,11 +256,15 @@ fn run_case(rep: &mut Report, args: &Args, cs: u64, sink_kind: &str) {
     if mixed == 0 {
         rep.trivial();
     } else {
+        let mut wins: Vec<String> = Vec::new();
         for w in stream_tids.windows(3) {
             if w[0] != w[1] || w[1] != w[2] {
-                rep.distinct(&format!("{}|T{}|c{}|{}-{}-{}", sink_kind, threads, cap, w[0], w[1], w[2]));
+                let s3 = format!("{}|T{}|c{}|{}-{}-{}", sink_kind, threads, cap, w[0], w[1], w[2]);
+                rep.fine("thread_id_trigrams_in_stream_order", &s3);
+                wins.push(s3);
             }
         }
+        rep.distinct_set(&format!("{}|T{}|c{}|f{}", sink_kind, threads, cap, flushers), &mut wins);
     }
     if rep.want_sample() {
         let first: Vec<Json> = stream.iter().take(3).map(|d| Json::Str(clip_bytes(d, 160))).collect();
